@@ -275,6 +275,30 @@ func execAq(f []string) string {
 // remaining concurrent cases of this run are skipped (scripted cases still run).
 var poisoned atomic.Bool
 
+// poisonedAll is set when a scripted (single-goroutine) case did not return: the stuck goroutine keeps
+// spinning, so every remaining case of this run is skipped.
+var poisonedAll atomic.Bool
+
+// guarded runs a scripted case with a watchdog.
+func guarded(f func() string) string {
+	res := make(chan string, 1)
+	go func() {
+		defer func() {
+			if p := recover(); p != nil {
+				res <- "PANIC " + strings.ReplaceAll(fmt.Sprint(p), "\n", " ")
+			}
+		}()
+		res <- f()
+	}()
+	select {
+	case r := <-res:
+		return r
+	case <-time.After(5 * time.Second):
+		poisonedAll.Store(true)
+		return "TIMEOUT a scripted operation did not return (spinning or blocked with a cancelled context)"
+	}
+}
+
 const valBase = 1000000
 
 func fmtInts(xs []int) string {
@@ -537,14 +561,17 @@ func exec(line string, st *hx.Stats) string {
 	if poisoned.Load() && f[0] != "mq" && f[0] != "aq" {
 		return "SKIPPED after a timeout in this run"
 	}
+	if poisonedAll.Load() {
+		return "SKIPPED after a timeout in this run"
+	}
 	switch f[0] {
 	case "mq":
 		if len(f) < 3 {
 			return "badcase"
 		}
-		return execMq(f)
+		return guarded(func() string { return execMq(f) })
 	case "aq":
-		return execAq(f)
+		return guarded(func() string { return execAq(f) })
 	case "mstress":
 		if len(f) != 7 {
 			return "badcase"
